@@ -119,6 +119,9 @@ def check_views(inp):
         return f'{nm}: clients() ids wrong after {ops}'
       if [k for k, _ in got] != [k for k, _ in v.clients()]:
         return f'{nm}: clients() order not deterministic'
+      if nm.startswith('mem') and ([k for k, _ in got] != sorted(ref) or [k for k, _ in v.client_sizes()] != sorted(ref)):
+        return (f'{nm}: clients() / client_sizes() of the view {ops} iterate in {[k for k, _ in got]}, not in sorted order '
+                '(set / hash order: differs between processes)')
       for k, dsx in got:
         if not same(dsx.all_examples(), expected(k, ref[k], chain)):
           return f'{nm}: examples of {k!r} wrong after {ops} (preprocessor order?)'
